@@ -47,6 +47,12 @@ mod absolute_to_relative_time {
     where
         S: Serializer,
     {
+        #[cfg(tarpc_verif)]
+        if true {
+            return deadline
+                .duration_since(crate::verif::now())
+                .serialize(serializer);
+        }
         let deadline = deadline.duration_since(Instant::now());
         deadline.serialize(serializer)
     }
@@ -56,6 +62,10 @@ mod absolute_to_relative_time {
         D: Deserializer<'de>,
     {
         let deadline = Duration::deserialize(deserializer)?;
+        #[cfg(tarpc_verif)]
+        if true {
+            return Ok(crate::verif::now() + deadline);
+        }
         Ok(Instant::now() + deadline)
     }
 
@@ -87,6 +97,10 @@ mod absolute_to_relative_time {
 assert_impl_all!(Context: Send, Sync);
 
 fn ten_seconds_from_now() -> Instant {
+    #[cfg(tarpc_verif)]
+    if true {
+        return crate::verif::now() + Duration::from_secs(10);
+    }
     Instant::now() + Duration::from_secs(10)
 }
 
